@@ -253,6 +253,19 @@ def run(repo, rep, tier):
             if not ok:
                 rep.finding("R1.3", add, node or add.node, f"`{fld}` is NaN in an empty aggregator but {why}: zero() + h poisons "
                             f"`{fld}` (the empty aggregator is not an identity for +)", stmt=f"{fld}: NaN discipline")
+        # R1.3 (extrema): for Minimize/Maximize the field is NaN not only while empty - a partial that has seen only NaN quantities has
+        # entries > 0 and min == NaN - so an emptiness guard does not make Python's builtin min/max safe: min(nan, 3.0) is nan but
+        # min(3.0, nan) is 3.0 (not commutative, not what a single pass over the data leaves)
+        if continue_r13 and c.name in ("Minimize", "Maximize"):
+            for n in walk_local_stmt(add.node):
+                if isinstance(n, ast.Call) and isinstance(n.func, ast.Name) and n.func.id in ("min", "max") and len(n.args) >= 2:
+                    txt = [ast.unparse(a0) for a0 in n.args]
+                    touches = [fld for fld in m.nan_fields if any(t.endswith("." + fld) for t in txt)]
+                    r3.ob(not touches, f"{c.name}.__add__: builtin {n.func.id} not applied to the NaN-capable field")
+                    if touches:
+                        rep.finding("R1.3", add, n, f"`{ast.unparse(n)[:60]}` applies Python's builtin {n.func.id} to `{touches[0]}`, which is NaN also in a NON-empty "
+                                    f"{c.name} that has seen only NaN quantities: builtin {n.func.id} keeps its first argument when the comparison with NaN is "
+                                    f"false, so a + b and b + a differ and neither is what filling the whole stream leaves", stmt=f"builtin {n.func.id} on NaN-capable {touches[0]}")
         # ---------------- R1.4
         zero_rule(repo, rep, r4, c, m)
     # ---------------- R1.5 for the extrema: fill(datum) agrees with the merge helper applied to (current extremum, datum)
